@@ -5,6 +5,8 @@
 
 mod registry_gen;
 mod val;
+mod c07;
+mod c08;
 mod c18;
 
 use vcommon::mon::Args;
@@ -23,6 +25,8 @@ fn main() {
 
 fn run(args: &Args, mon: &mut vcommon::mon::Monitor) {
     match args.prop.as_str() {
+        "C07" => c07::run(mon, args),
+        "C08" => c08::run(mon, args),
         "C18" => c18::run(mon, args),
         p => {
             eprintln!("e_api: unknown property {}", p);
